@@ -643,6 +643,10 @@ func c13ChildMain() {
 		c13Segments(o, seed, tier)
 		return
 	}
+	if os.Getenv("VERIF_C13_CHILD") == "helper" {
+		c13Helpers(o, seed, tier)
+		return
+	}
 	root := NewRng(uint64(seed))
 	rounds := 2
 	if tier == "thorough" {
@@ -697,5 +701,6 @@ func c13ChildMain() {
 	for i := range protos {
 		o.line(fmt.Sprintf("C13 proto role%d chan %s => %s", i, snaps[i], c13SnapDigest(protos[i])))
 	}
-	// (the segmentPool scenario family of c13_seg.go runs in child processes of its own: mode "seg")
+	// (the segmentPool scenario family of c13_seg.go runs in child processes of its own: mode "seg"; so does the family
+	// of c13_helper.go — the interpreter's own goroutines and contexts cancelled from outside: mode "helper")
 }
